@@ -15,8 +15,12 @@
          to back and the channel closed 0-200 us after the last send (a VM may
          still be busy with a slow line): the counters read after shutdown vs
          Run/Loader.v settled by the model of the end of the run, under the
-         earliest and the latest position of the close. *)
-From V Require Export Corr.LoaderRun Run.TailCounters Run.Shutdown.
+         earliest and the latest position of the close.
+   C25S: histories of program-directory scans (LoadAllPrograms on a real
+         directory: programs that never compiled, are removed, renamed, hidden,
+         replaced by a directory, repaired) with the counters in every
+         snapshot vs Run/DirScan.v. *)
+From V Require Export Corr.LoaderRun Corr.Run_C26 Run.TailCounters Run.Shutdown.
 Local Open Scope N_scope.
 
 Record tobs := mktobs { to_log_count : Z; to_lines_total : N; to_log_lines : list (bytes * N) }.
@@ -35,10 +39,11 @@ Inductive c25case :=
 | C25T (id : N) (evs : list tev) (obs : list tobs)
 | C25D (id : N) (names : list bytes) (acts : list act) (obs : list (option N)) (final : N)
        (got : list (bytes * list cline))
-| C25E (id : N) (omit : bool) (ct : ctab) (vt : vtab) (ops : list op) (ls : list cline) (obs : ocounters).
+| C25E (id : N) (omit : bool) (ct : ctab) (vt : vtab) (ops : list op) (ls : list cline) (obs : ocounters)
+| C25S (c : dcase).
 
 Definition c25_id (c : c25case) : N :=
-  match c with C25L l => lcase_id l | C25T i _ _ => i | C25D i _ _ _ _ _ => i | C25E i _ _ _ _ _ _ => i end.
+  match c with C25L l => lcase_id l | C25T i _ _ => i | C25D i _ _ _ _ _ => i | C25E i _ _ _ _ _ _ => i | C25S d => dcase_id d end.
 
 Definition cline_eqb (a b : cline) : bool := N.eqb (fst a) (fst b) && Z.eqb (snd a) (snd b).
 
@@ -71,6 +76,7 @@ Definition c25_ok (c : c25case) : bool :=
   | C25T _ evs obs => all2 tobs_ok (ttrace ts_empty evs) obs
   | C25D _ names acts obs final got => c25d_ok names acts obs final got
   | C25E _ omit ct vt ops ls obs => c25e_ok omit ct vt ops ls obs
+  | C25S d => dcase_ok d
   end.
 
 Definition mismatches (l : list c25case) : list N := failing c25_ok c25_id l.
